@@ -69,8 +69,8 @@ func runC04(c *Ctx, r *Report) {
 					switch u := ref.(type) {
 					case *ssa.Store:
 						nStores++
-						_, isParam := u.Val.(*ssa.Parameter)
-						r.check(fn.Name() == "decode" && isParam, "C04-R1-reader-assign", fn.String(), c.pos(u.Pos()), "reader field is assigned once, from the parameter, unwrapped", "decoder.r is assigned somewhere else or from something other than the caller's reader (wrapping it would read ahead)")
+						isParam := readerFromCaller(c, u)
+						r.check(isParam, "C04-R1-reader-assign", fn.String(), c.pos(u.Pos()), "reader field is assigned once, from the parameter, unwrapped", "decoder.r is assigned somewhere else or from something other than the caller's reader (wrapping it would read ahead)")
 					case *ssa.UnOp:
 						for _, use := range *u.Referrers() {
 							ci, ok := use.(ssa.CallInstruction)
